@@ -592,6 +592,13 @@ func (s *service) verifyBlock(b dbft.Block[util.Uint256]) bool {
 		}
 	}
 
+	// A transaction can silently evict the previous ones from the pool
+	// (Conflicts attribute, oracle response with the same ID).
+	if pool.Count() != len(coreb.Transactions) {
+		s.log.Warn("conflicting transactions in proposed block")
+		return false
+	}
+
 	maxBlockSysFee := s.ProtocolConfiguration.MaxBlockSystemFee
 	if fee > maxBlockSysFee {
 		s.log.Warn("proposed block system fee exceeds config MaxBlockSystemFee",
